@@ -203,8 +203,26 @@ class G:
             return Rep(Ref('ID'), 1, Lit('.'))
         if c < 0.9 and later:
             return Choice([Ref(r.choice(later)), self.newkw()])
-        self.used_features.add('match-suppress')
-        return Seq([Lit('<', suppress=True), Ref('ID'), Lit('>', suppress=True)])
+        if c < 0.95:
+            self.used_features.add('match-suppress')
+            return Seq([Lit('<', suppress=True), Ref('ID'), Lit('>', suppress=True)])
+        if c < 0.965:
+            # a suppressed element inside redundant parentheses
+            self.used_features.add('match-suppress-paren')
+            return Seq([Seq([Lit('<', suppress=True)], paren=True), Ref('ID'),
+                        Seq([Seq([Lit('>'), Lit('>')], suppress=True)], paren=True)])
+        # suppression applied to a repetition / optional / unordered group inside a match rule
+        self.used_features.add('match-suppress-repetition')
+        k = r.randrange(5)
+        if k == 0:
+            return Seq([Rep(self.newkw(), 1, suppress=True), Ref('ID')])
+        if k == 1:
+            return Seq([Ref('ID'), Rep(Lit('!'), 0, suppress=True)])
+        if k == 2:
+            return Seq([Ref('ID'), Unord([Lit('@a'), Lit('@b')], suppress=True)])
+        if k == 3:
+            return Seq([Rep(Lit('+'), 1, sep=Lit(','), suppress=True), Ref('INT')])
+        return Seq([Opt(self.newkw(), suppress=True), Ref('ID'), Rep(Ref('INT'), 0, suppress=True)])
 
 # ---------------- sentence derivation ----------------
 class Deriver:
